@@ -1438,6 +1438,6 @@ Lemma field_selection_stateless_lemma : forall prev vds chosen,
   fields_walk prev vds chosen = map (fun fields => chosen_indices 0 fields chosen) vds.
 Proof.
   intros prev vds chosen. revert prev. induction vds as [|f vds IH]; intros prev; [reflexivity|].
-  cbn [fields_walk map]. unfold field_indices at 1 2, field_indices_reset_per_vdata.
-  change (1 =? 0) with false. cbv iota. f_equal. apply IH.
+  cbn [fields_walk map]. rewrite IH. f_equal. unfold field_indices, field_indices_reset_per_vdata.
+  change (1 =? 0) with false. cbv iota. destruct (chosen_indices 0 f chosen); reflexivity.
 Qed.
